@@ -35,6 +35,22 @@ pub uninterp spec fn fmin(a: f64, b: f64) -> f64;
 pub uninterp spec fn fmax(a: f64, b: f64) -> f64;
 pub assume_specification [f64::min] (a: f64, b: f64) -> (r: f64) ensures r == fmin(a, b);
 pub assume_specification [f64::max] (a: f64, b: f64) -> (r: f64) ensures r == fmax(a, b);
+// float constants (rule R12c): Verus has no model of core::f64 associated consts; each is an
+// uninterpreted spec constant, distinct names so that swapping two of them is visible.
+pub uninterp spec fn spec_f64_max() -> f64;
+pub uninterp spec fn spec_f64_min() -> f64;
+pub uninterp spec fn spec_f64_min_positive() -> f64;
+pub uninterp spec fn spec_f64_nan() -> f64;
+pub uninterp spec fn spec_f64_infinity() -> f64;
+pub uninterp spec fn spec_f64_neg_infinity() -> f64;
+pub uninterp spec fn spec_f64_epsilon() -> f64;
+#[verifier::external_body] pub fn fconst_f64_max() -> (r: f64) ensures r == spec_f64_max() { f64::MAX }
+#[verifier::external_body] pub fn fconst_f64_min() -> (r: f64) ensures r == spec_f64_min() { f64::MIN }
+#[verifier::external_body] pub fn fconst_f64_min_positive() -> (r: f64) ensures r == spec_f64_min_positive() { f64::MIN_POSITIVE }
+#[verifier::external_body] pub fn fconst_f64_nan() -> (r: f64) ensures r == spec_f64_nan() { f64::NAN }
+#[verifier::external_body] pub fn fconst_f64_infinity() -> (r: f64) ensures r == spec_f64_infinity() { f64::INFINITY }
+#[verifier::external_body] pub fn fconst_f64_neg_infinity() -> (r: f64) ensures r == spec_f64_neg_infinity() { f64::NEG_INFINITY }
+#[verifier::external_body] pub fn fconst_f64_epsilon() -> (r: f64) ensures r == spec_f64_epsilon() { f64::EPSILON }
 // ---- shared byte-level prelude ---------------------------------------------
 // Format vocabulary written from the published BBI layout (Kent et al. 2010),
 // as arithmetic on byte values - not as calls to from_le_bytes/to_le_bytes.
@@ -421,6 +437,7 @@ pub fn get_zoom_block_values(data: Vec<u8>, endianness: Endianness,
                 invariant
                     
                     bytes.rem() == data@.subrange(32 * k__ as int, data@.len() as int),
+                    
                     itemcount == data@.len() / 32, data@.len() % 32 == 0,
                     
                     records@ == zoom_sel(true, data@, k__ as int, chrom, start, end),
@@ -437,11 +454,14 @@ pub fn get_zoom_block_values(data: Vec<u8>, endianness: Endianness,
                 let sum_squares = f64::from(bytes.get_f32());
 
                 proof {
+                    
                     assert(bytes.rem() =~= data@.subrange(32 * (k__ + 1), data@.len() as int));
                     let ghost rr = rec_at(true, data@, k__ as int);
-                    assert(chrom_id == rr.chrom && chrom_start == rr.start && chrom_end == rr.end); 
+                    
+                    assert(chrom_id == rr.chrom && chrom_start == rr.start && chrom_end == rr.end);
+                    
                     assert(bases_covered == rr.summary.bases_covered && min_val == rr.summary.min_val && max_val == rr.summary.max_val
-                        && sum == rr.summary.sum && sum_squares == rr.summary.sum_squares); 
+                        && sum == rr.summary.sum && sum_squares == rr.summary.sum_squares);
                 }
                 if chrom_id == chrom && chrom_end >= start && chrom_start <= end {
                     records.push(ZoomRecord {
@@ -465,6 +485,7 @@ pub fn get_zoom_block_values(data: Vec<u8>, endianness: Endianness,
                 invariant
                     
                     bytes.rem() == data@.subrange(32 * k__ as int, data@.len() as int),
+                    
                     itemcount == data@.len() / 32, data@.len() % 32 == 0,
                     
                     records@ == zoom_sel(false, data@, k__ as int, chrom, start, end),
@@ -481,11 +502,14 @@ pub fn get_zoom_block_values(data: Vec<u8>, endianness: Endianness,
                 let sum_squares = f64::from(bytes.get_f32_le());
 
                 proof {
+                    
                     assert(bytes.rem() =~= data@.subrange(32 * (k__ + 1), data@.len() as int));
                     let ghost rr = rec_at(false, data@, k__ as int);
-                    assert(chrom_id == rr.chrom && chrom_start == rr.start && chrom_end == rr.end); 
+                    
+                    assert(chrom_id == rr.chrom && chrom_start == rr.start && chrom_end == rr.end);
+                    
                     assert(bases_covered == rr.summary.bases_covered && min_val == rr.summary.min_val && max_val == rr.summary.max_val
-                        && sum == rr.summary.sum && sum_squares == rr.summary.sum_squares); 
+                        && sum == rr.summary.sum && sum_squares == rr.summary.sum_squares);
                 }
                 if chrom_id == chrom && chrom_end >= start && chrom_start <= end {
                     records.push(ZoomRecord {
